@@ -3,7 +3,7 @@
 # run the named property checks against the copy with evidence redirected to a scratch verif dir, clean up.
 # exit 0 iff at least one of the named checks reports a VIOLATION (i.e. the mutant is detected).
 set -u
-patch="$1"; shift
+patch="$(readlink -f "$1")"; shift
 export GOFLAGS=-mod=mod GOPROXY=off
 T=$(mktemp -d "${TMPDIR:-/tmp}/emcheck-mut-XXXXXX")
 trap 'rm -rf "$T"' EXIT
